@@ -30,6 +30,8 @@ struct PeerPlan {
     interested: bool,
     /// answers the client's handshake only after this delay (a peer that is slow to accept)
     late_ms: u64,
+    /// pieces it has but leaves out of its bitfield and announces with `Have` when the first request arrives
+    have_later: Vec<usize>,
 }
 
 fn msg(id: u8, payload: &[u8]) -> Vec<u8> {
@@ -128,7 +130,12 @@ fn serve_conn(
     reply.extend_from_slice(&[0u8; 8]);
     reply.extend_from_slice(&info_hash);
     reply.extend_from_slice(&id);
-    if !write_segmented(&mut s, &reply, &mut r) || !write_segmented(&mut s, &bitfield(&plan.pieces), &mut r) {
+    let mut advertised = plan.pieces.clone();
+    for i in plan.have_later.iter() {
+        advertised[*i] = false;
+    }
+    let mut announced_later = plan.have_later.is_empty();
+    if !write_segmented(&mut s, &reply, &mut r) || !write_segmented(&mut s, &bitfield(&advertised), &mut r) {
         return;
     }
     if plan.drop_after == Some(0) && !plan.drop_mid {
@@ -202,6 +209,14 @@ fn serve_conn(
                     let length = u32::from_be_bytes([frame[13], frame[14], frame[15], frame[16]]) as usize;
                     if !unchoked || index >= plan.pieces.len() || !plan.pieces[index] {
                         continue;
+                    }
+                    if !announced_later {
+                        announced_later = true;
+                        for i in plan.have_later.iter() {
+                            if !write_segmented(&mut s, &msg(4, &(*i as u32).to_be_bytes()), &mut r) {
+                                return;
+                            }
+                        }
                     }
                     if plan.slow_ms > 0 {
                         std::thread::sleep(std::time::Duration::from_millis(plan.slow_ms));
@@ -336,11 +351,11 @@ pub fn child(seed: u64, pl: usize, lens: &str, honest: usize, droppers: usize, m
     }
     for h in 0..honest {
         let slow_ms = if (disjoint && !crowd || twin) && h == 0 { 150 } else { 0 };
-        plans.push(PeerPlan { pieces: own[h].clone(), drop_after: None, drop_mid: false, seed: r.next(), slow_ms, chokes, choke_first: choke_race && h == 0, interested: crowd, late_ms: if twin && h > 0 { 120 } else { 0 } });
+        plans.push(PeerPlan { pieces: own[h].clone(), drop_after: None, drop_mid: false, seed: r.next(), slow_ms, chokes, choke_first: choke_race && h == 0, interested: crowd, late_ms: if twin && h > 0 { 120 } else { 0 }, have_later: vec![] });
     }
     for _ in 0..droppers {
         let pieces: Vec<bool> = (0..npieces).map(|_| r.coin()).collect();
-        plans.push(PeerPlan { pieces, drop_after: Some(r.below(3) as usize), drop_mid: r.coin(), seed: r.next(), slow_ms: 0, chokes: false, choke_first: false, interested: false, late_ms: 0 });
+        plans.push(PeerPlan { pieces, drop_after: Some(r.below(3) as usize), drop_mid: r.coin(), seed: r.next(), slow_ms: 0, chokes: false, choke_first: false, interested: false, late_ms: 0, have_later: vec![] });
     }
     r.shuffle(&mut plans);
     let stop = Arc::new(AtomicBool::new(false));
@@ -485,9 +500,9 @@ pub fn gen(r: &mut Rng, n: usize) -> Vec<String> {
         // scenario families that matter for the bookkeeping, then free mixtures
         let family = k % 7;
         if family == 6 {
-            // a slow seeder and late, fast twins (mode 6): 2..4 pieces of several blocks, one twin per piece but the last
+            // a slow seeder and late, fast twins (mode 6): 4..5 pieces of several blocks, one twin per piece but the last
             let pl = *r.pick(&[20000usize, 40000]);
-            let npieces = 2 + r.below(3) as usize;
+            let npieces = 4 + r.below(2) as usize;
             let total = pl * npieces - r.below(pl as u64 / 2) as usize;
             out.push(format!("e2e {} {} {} {} 0 6", r.below(1 << 30), pl, total, npieces));
             continue;
